@@ -174,7 +174,7 @@ def r201(chk, m):
         chk.decide(R, 'restore: %s' % label, {repr(g) for g in got}, {repr(w)},
                    'restore("other.paux", "HTML5") with %s: (outcome, labels filed -> data each node was restored from, warnOnUnrecognized) = %s; '
                    'expected %s' % (label, sorted(got, key=repr), w), chk.where(res))
-    lp = m.module('plasTeX.Packages.xr').functions.get('load_paux')
+    lp = m.func_or_none('plasTeX.Packages.xr', 'load_paux')
     need(lp is not None, 'xr.load_paux not found')
     chk.analysed(lp)
     for label, cfg, want in [('a readable file', dict(exists=True, content={'HTML5': {'a': 1}}), plain({'HTML5': {'a': 1}})), ('no file', dict(exists=False, content=None), ())] + \
@@ -297,40 +297,34 @@ def origin_of(m, fn, expr, depth=4):
 
 
 def r203(chk, m):
-    R = chk.rule('R20.3', 'keys: the label file is written under the renderer name taken from the same configuration entry '
-                 '(general/renderer) that Compile.parse uses to read it', 1)
-    from .c05 import reachable_private
-    rr = m.func('plasTeX.Renderers', 'Renderer.render')
+    R = chk.rule('R20.3', 'keys: Renderer.render, interpreted, writes the label file <working-dir>/<jobname>.paux under the renderer name '
+                 'taken from the configuration entry general/renderer - the entry that Compile.parse uses to read it', 1)
+    from . import renderheap as RH
+    rr, paths = RH.protocol_paths(m)
     chk.analysed(rr)
-    found = []
-    for f in [rr] + reachable_private(m, rr):
-        for c in M.calls_in(f.node):
-            if M.call_name(c).endswith('context.persist') and len(c.args) >= 2:
-                found.append(origin_of(m, f, c.args[1]))
-    chk.verdict(R, 'renderer key from the same configuration entry', found == ["config['general']['renderer']"],
-                'the label file is written under the key %s; restore reads it under config[\'general\'][\'renderer\'] (see R20.5)' % found, chk.where(rr))
+    if isinstance(paths, str):
+        chk.undecided(R, 'renderer key from the same configuration entry', paths, chk.where(rr))
+    else:
+        got = {(kind, tuple(e[:e.rindex('[')] for e in events if e.startswith('persist('))) for kind, events, _left in paths}
+        chk.decide(R, 'renderer key from the same configuration entry', got, {('return', ('persist(/w/job.paux, RENDERER-KEY)',))},
+                   'Renderer.render for the job "job" in /w with general/renderer = RENDERER-KEY saves the labels as %s; expected the file '
+                   '/w/job.paux under the key RENDERER-KEY - restore reads it under config[\'general\'][\'renderer\'] (see R20.5)' % sorted(got), chk.where(rr))
     from . import shared, c09
     shared.paux_rules(chk, m, 'R20.5')
     c09.r95(chk, m, rule_id='R20.6')
 
 
 def r204(chk, m):
-    R = chk.rule('R20.4', 'saved while renderable: in Renderer.render the persist call precedes the removal of the renderable mix-in '
-                 '(url - the target location - exists only while it is mixed in); calls made inside private helpers count', 1)
-    fn = m.func('plasTeX.Renderers', 'Renderer.render')
-    hc = helper_calls(m, fn)
-
-    def transfer(n, v):
-        mixed, saved = v
-        names = hc.get(id(n), set()) if isinstance(n, ast.Call) else set()
-        if 'mixin' in names:
-            mixed = True
-        if any(x.endswith('context.persist') for x in names):
-            saved = 'while-mixed' if mixed else 'after-unmix'
-        if 'unmix' in names or isinstance(n, ast.Delete) and any(text(t) == 'Node.renderer' for t in n.targets):
-            mixed = False
-        return (mixed, saved)
-    normal, raised = flow.function_exits(fn.node, (False, None), transfer)
-    chk.verdict(R, 'Renderer.render persists before unmixing', normal == {(False, 'while-mixed')},
-                'Renderer.render exits with (mixed, saved) = %s: labels must be saved while the renderable mix-in (url) is still present'
-                % sorted(map(str, normal)), chk.where(fn))
+    R = chk.rule('R20.4', 'saved while renderable: Renderer.render, interpreted on a document without imagers, calls persist while the '
+                 'renderable mix-in is in place and Node.renderer is set (url - the target location - exists only while it is mixed in)', 1)
+    from . import renderheap as RH
+    fn, paths = RH.protocol_paths(m)
+    chk.analysed(fn)
+    if isinstance(paths, str):
+        chk.undecided(R, 'Renderer.render persists before unmixing', paths, chk.where(fn))
+        return
+    chk.paths += len(paths)
+    got = {(kind, RH.event_states(events, 'persist(')) for kind, events, _left in paths}
+    chk.decide(R, 'Renderer.render persists before unmixing', got, {('return', ('[mixed,renderer]',))},
+               'Renderer.render interpreted on a document without imagers: (outcome, state at each persist call) = %s: labels must be saved once, '
+               'while the renderable mix-in (url) is still present' % sorted(got), chk.where(fn))
